@@ -164,6 +164,14 @@ func directed(t *keyTaker) []RunSpec {
 		st(4*day, pubs(0, 1), sigs(0), "29 d: pending"),
 		st(2*day, pubs(0, 1), sigs(0), "31 d: valid"),
 	)
+	// D2b the same, but the refresh that sees N withdrawn cannot write the state file.
+	add("abort-under-state-write-failure", false, mats(p(), p()), pubs(0),
+		st(0, pubs(0, 1), sigs(0), "add N"),
+		Step{DtHours: 10 * day, Keys: pubs(0), Sigs: sigs(0), Fault: FStateEIO, Note: "N withdrawn; state write fails"},
+		st(1*day, pubs(0, 1), sigs(0), "N again"),
+		st(20*day, pubs(0, 1), sigs(0), "31 d after first sight, 20 d after second"),
+		st(11*day, pubs(0, 1), sigs(0), "31 d after second"),
+	)
 	// D3 missing: 89 d trusted, reappears -> valid, missing again 91 d -> removed, re-add is a new key.
 	add("missing-and-return", false, mats(p(), p()), pubs(0),
 		st(0, pubs(0, 1), sigs(0), "add N"),
@@ -176,6 +184,24 @@ func directed(t *keyTaker) []RunSpec {
 		st(31*day, pubs(0), sigs(0), "91 d: removed"),
 		st(1*day, pubs(0, 1), sigs(0), "back: pending again"),
 		st(10*day, pubs(0, 1), sigs(0), "still pending"),
+	)
+	// D3b a missing key reappears in a refresh that cannot write the state file.
+	add("return-under-state-write-failure", false, mats(p(), p()), pubs(0),
+		st(0, pubs(0, 1), sigs(0), "add N"),
+		st(31*day, pubs(0, 1), sigs(0), "valid"),
+		st(1*day, pubs(0), sigs(0), "N missing"),
+		st(89*day, pubs(0), sigs(0), "89 d missing: trusted"),
+		Step{DtHours: 12, Keys: pubs(0, 1), Sigs: sigs(0, 1), Fault: FStateEIO, Note: "reappears: valid; state write fails"},
+		st(1*day, pubs(0), sigs(0), "missing again, 90 d 12 h after it first went missing"),
+		st(1*day, pubs(0), sigs(0), "after"),
+	)
+	// D1b the tombstone store cannot be opened at a start after A was revoked.
+	add("tombstone-open-error-after-revocation", false, mats(p(), p()), pubs(0, 1),
+		st(0, pubs(0, 1), sigs(0, 1), "two anchors"),
+		st(1*day, pubs(rv(0), 1), sigs(rv(0), 1), "revoke A"),
+		st(30*day, pubs(1), sigs(1), "A gone; config still lists it"),
+		Step{DtHours: 1 * day, Keys: pubs(1), Sigs: sigs(1), Fault: FTombOpen, Note: "open(tombstones) = EIO"},
+		st(1*day, pubs(1), sigs(1), "clean start afterwards"),
 	)
 	// D4 revocation authenticated only by the revoked key; a new key rides along.
 	add("revoked-only-auth", false, mats(p(), p(), p()), pubs(0, 1),
@@ -321,13 +347,11 @@ func genRandom(rng *rand.Rand, t *keyTaker, idx int) RunSpec {
 	}
 	total := nAnchors + 3
 	// optional collision features
-	special := -1
 	switch rng.IntN(8) {
 	case 0:
 		if pr, ok := t.takeSame(); ok {
 			rs.Collision = true
 			keys = append(keys, pr[0])
-			special = 1 // pr[1] goes to a later slot
 			for len(keys) < total-1 {
 				keys = append(keys, t.takePlain())
 			}
@@ -350,7 +374,6 @@ func genRandom(rng *rand.Rand, t *keyTaker, idx int) RunSpec {
 			keys = append(keys, c)
 		}
 	}
-	_ = special
 	for len(keys) < total {
 		keys = append(keys, t.takePlain())
 	}
@@ -615,17 +638,24 @@ func sanitizeStep(s *Step, keys []*Key) {
 		}
 		return keys[p.Key].Tag
 	}
+	revTags := map[uint16]bool{}
+	drop := map[int]bool{}
+	for i, p := range s.Keys {
+		if !p.Revoked {
+			continue
+		}
+		if revTags[tagOf(p)] {
+			drop[i] = true // a second revoked form with the same tag
+			continue
+		}
+		revTags[tagOf(p)] = true
+	}
 	var out []Pub
 	for i, p := range s.Keys {
-		clash := false
-		for j, q := range s.Keys {
-			if i != j && (p.Revoked || q.Revoked) && tagOf(p) == tagOf(q) && !p.Revoked {
-				clash = true // drop the un-revoked one of the two
-			}
+		if drop[i] || (!p.Revoked && revTags[tagOf(p)]) {
+			continue
 		}
-		if !clash {
-			out = append(out, p)
-		}
+		out = append(out, p)
 	}
 	s.Keys = out
 }
